@@ -756,6 +756,10 @@ func verifHosts(l *roundRobinLoadBalancer) []*Host { return l.hosts.Load().([]*H
 //   $outageZero: the outage clock is zero ("no outage"); set by setOutageTime, the only writer.
 //   "reports a non-zero outage only while no control connection exists": controlConn != nil ==> $outageZero.
 //@ ghostvar $outageZero bool
+//   $outageStarts: how many times the outage clock has been started (set to a non-zero time). "The outage
+//   duration grows until the connection is back": the clock is started when the connection is lost and
+//   not again while it stays lost - a failed reconnect attempt does not restart it.
+//@ ghostvar $outageStarts int
 //@ macro connOK(cc) = cc != nil ==> cc.closingMu != nil && cc.pending != nil && cc.conn != nil && cc.codec != nil
 //@ macro clusterOK(c) = len(c.hosts) > 0 && -1 <= c.currentHostIndex && c.currentHostIndex < len(c.hosts) && c.logger != nil && c.config.Resolver != nil
 
@@ -764,7 +768,7 @@ func verifHosts(l *roundRobinLoadBalancer) []*Host { return l.hosts.Load().([]*H
 
 //@ func proxycore.Cluster.setOutageTime [C16, C18]
 //@   requires c != nil
-//@   entry-set $outageZero = (t.wall == 0 && t.ext == 0)
+//@   entry-set $outageZero = (t.wall == 0 && t.ext == 0); $outageStarts = $outageStarts + ite(t.wall == 0 && t.ext == 0, 0, 1)
 //@   modifies c.outageTime
 
 // connPool.stayConnected: one goroutine per pool slot keeps the slot connected.
@@ -843,9 +847,10 @@ func verifHosts(l *roundRobinLoadBalancer) []*Host { return l.hosts.Load().([]*H
 //@   ensures connected: err == nil ==> c.controlConn != nil && clusterOK(c)
 //@   ensures connOK(c.controlConn) || c.controlConn == old(c.controlConn)
 //@   ensures outage-only-without-connection: c.controlConn != nil ==> $outageZero
+//@   ensures clock-not-restarted: $outageStarts == old($outageStarts) [C16]
 //@   ensures failed: err != nil ==> c.hosts == old(c.hosts) && (c.currentHostIndex == old(c.currentHostIndex) || c.currentHostIndex == -1)
 //@   ensures c.logger == old(c.logger) && c.config.Resolver == old(c.config.Resolver) && c.config.ReconnectPolicy == old(c.config.ReconnectPolicy)
-//@   modifies *, $outageZero
+//@   modifies *, $outageZero, $outageStarts
 
 // reconnect: fail over to the next known host (the index stays valid: the list is never empty).
 //@ func proxycore.Cluster.reconnect [C16, C17]
@@ -853,18 +858,19 @@ func verifHosts(l *roundRobinLoadBalancer) []*Host { return l.hosts.Load().([]*H
 //@   ensures result ==> c.controlConn != nil && clusterOK(c)
 //@   ensures connOK(c.controlConn)
 //@   ensures outage-only-without-connection: c.controlConn != nil ==> $outageZero
+//@   ensures clock-not-restarted: $outageStarts == old($outageStarts) [C16]
 //@   ensures !result ==> c.hosts == old(c.hosts) && clusterOK(c)
 // "fails the control connection over to another known host": an attempt that fails moves on - the next
 // attempt targets the following host of the list (or starts over after a host list mismatch)
 //@   ensures rotates: !result ==> c.currentHostIndex == (old(c.currentHostIndex) + 1) % len(old(c.hosts)) || c.currentHostIndex == -1
 //@   ensures c.logger == old(c.logger) && c.config.Resolver == old(c.config.Resolver) && c.config.ReconnectPolicy == old(c.config.ReconnectPolicy)
-//@   modifies *, $outageZero
+//@   modifies *, $outageZero, $outageStarts
 
 // refreshHosts: re-read the host tables over the control connection; a failure closes it (the loop
 // then notices the closed connection and fails over) and leaves the host list alone.
 //@ func proxycore.Cluster.refreshHosts [C16, C17]
 //@   requires c != nil && clusterOK(c) && c.controlConn != nil && c.controlConn.closingMu != nil && c.controlConn.pending != nil && c.controlConn.conn != nil && c.controlConn.codec != nil
-//@   ensures clusterOK(c) && c.controlConn == old(c.controlConn) && $outageZero == old($outageZero)
+//@   ensures clusterOK(c) && c.controlConn == old(c.controlConn) && $outageZero == old($outageZero) && $outageStarts == old($outageStarts)
 //@   ensures c.config.ReconnectPolicy == old(c.config.ReconnectPolicy)
 //@   modifies *, c.controlConn.pending.$has, c.controlConn.pending.$tag, c.controlConn.pending.$val
 // Listeners (the proxy, sessions, the load balancer) change their own state, not the cluster's.
@@ -895,6 +901,7 @@ func verifHosts(l *roundRobinLoadBalancer) []*Host { return l.hosts.Load().([]*H
 //@   invariant failover-possible: clusterOK(c) [C16, C17]
 //@   invariant conn-usable: connOK(c.controlConn) [C16, C17]
 //@   invariant outage-only-without-connection: c.controlConn != nil ==> $outageZero [C16]
+//@   invariant outage-clock-starts-at-the-loss: $clClockOK [C16]
 //@   invariant reset-after-success: $clReconnected ==> $clReset [C16]
 //@   invariant backoff-from-policy: $clTimersOK [C16]
 //@   invariant own-policy: $clOwnPolicy [C16]
@@ -919,6 +926,9 @@ func verifHosts(l *roundRobinLoadBalancer) []*Host { return l.hosts.Load().([]*H
 //@   local $clLastDelay time.Duration = 0
 //@   local $clTimersOK bool = true
 //@   local $clOwnPolicy bool = true
+//@   local $clClockOK bool = true
+// the clock is started only while the connection that is being given up is still recorded
+//@   before proxycore.Cluster.setOutageTime#* set $clClockOK = $clClockOK && ((arg1.wall == 0 && arg1.ext == 0) || c.controlConn != nil)
 //@   after proxycore.ReconnectPolicy.NextDelay#* set $clLastDelay = result
 //@   before proxycore.ReconnectPolicy.NextDelay#* set $clOwnPolicy = $clOwnPolicy && fresh(recv)
 //@   before time.NewTimer#* set $clTimersOK = $clTimersOK && (arg0 == $clLastDelay || arg0 == getOrUseDefault(c.config.RefreshWindow, DefaultRefreshWindow))
@@ -931,7 +941,7 @@ func verifHosts(l *roundRobinLoadBalancer) []*Host { return l.hosts.Load().([]*H
 // receiving from a timer's channel consumes its firing: case 1 of the two-way select is connectTimer.C,
 // case 3 of the five-way select is refreshTimer.C
 //@   after select#* set connectTimer.$armed = connectTimer.$armed && !(selcases == 2 && selidx == 1); refreshTimer.$armed = refreshTimer.$armed && !(selcases == 5 && selidx == 3)
-//@   modifies *, any(time.Timer).$armed, $outageZero, any(proxycore.pendingRequests).$has, any(proxycore.pendingRequests).$tag, any(proxycore.pendingRequests).$val
+//@   modifies *, any(time.Timer).$armed, $outageZero, $outageStarts, any(proxycore.pendingRequests).$has, any(proxycore.pendingRequests).$tag, any(proxycore.pendingRequests).$val
 
 // ---------------------------------------------------------------------------------------------
 // C17 / C16: the control connection's view of the backend - result sets and the host list.
@@ -1098,4 +1108,4 @@ func verifHosts(l *roundRobinLoadBalancer) []*Host { return l.hosts.Load().([]*H
 //@ func proxycore.ConnectCluster [C16, C17]
 //@   requires config.Resolver != nil && config.ReconnectPolicy != nil
 //@   ensures result1 == nil ==> result0 != nil
-//@   modifies *, $outageZero
+//@   modifies *, $outageZero, $outageStarts
